@@ -210,6 +210,15 @@ def _poly(s: S) -> Poly:
         if n is not None:
             return Poly.const(n)
         return Poly.atom(s)
+    if o == "poly":  # already normalised (idempotence)
+        r = Poly()
+        for t in a:
+            m = Poly.const(Fraction(t.args[0]))
+            for pw in t.args[1:]:
+                for _ in range(pw.args[1]):
+                    m = m * Poly.atom(pw.args[0])
+            r = r + m
+        return r
     if o == "+":
         return poly(a[0]) + poly(a[1])
     if o == "-":
@@ -312,6 +321,15 @@ def _cmp_raw(s: S):
 
 def cmpnf(s: S, negate=False):
     """Comparison normal form (P, op) with op in {'>0','>=0','==0','!=0'} or None."""
+    if s.op == "cmp":  # already normalised
+        op0, d0 = s.args[0], poly(s.args[1])
+        if not negate:
+            return d0, op0
+        if op0 == ">0":
+            return -d0, ">=0"
+        if op0 == ">=0":
+            return -d0, ">0"
+        return d0, ("!=0" if op0 == "==0" else "==0")
     r = _cmp_raw(s)
     if r is None:
         return None
